@@ -6,6 +6,7 @@ import TantivyModel.Proofs.BlockSearch
 import TantivyModel.Proofs.CursorSeek
 import TantivyModel.Proofs.Positions
 import TantivyModel.Proofs.TermInfoStore
+import TantivyModel.Proofs.BitPacker4x
 /-!
 # C07 — The inverted index records exactly the terms, documents, frequencies, positions
 
@@ -150,6 +151,25 @@ theorem C07_positions_addressing (c : Cfg) (hB : 0 < c.B) (hS : 2 ≤ c.S) (hP :
     Positions.read c (Positions.encode c perDoc.flatten)
       (((perDoc.take i).map List.length).sum) (perDoc.getD i []).length = some (perDoc.getD i []) :=
   Positions.read_slice c hB hS hP perDoc i hi
+
+/-! ### the modelled BitPacker4x layout meets the contract: hypothesis-free instances -/
+
+/-- the 4-lane byte layout of `BitPacker4x` as modelled (`bp4x`, validated against the real crate by
+cross-decoding in both directions) packs 128 values of `w` bits into `16·w` bytes and unpacks them -/
+theorem C07_bp4x_good : GoodPacker cfg.B bp4x := bp4x_good
+
+/-- the executable model (what the driver runs, `cfg` with `bp4x`): no packer hypothesis left -/
+theorem C07_postings_roundtrip_concrete (o : RecOpt) (docs tfs : List Nat)
+    (hs : docs.Pairwise (· < ·)) (ht : ∀ d ∈ docs, d < Gen.Postings.TERMINATED)
+    (hl : tfs.length = docs.length) (hp : ∀ t ∈ tfs, 1 ≤ t) :
+    decodeAll cfg o docs.length (encodeTerm cfg o docs tfs) = some (docs, if hasFreq o then tfs else []) :=
+  C07_postings_roundtrip cfg o (by decide) (by decide) C07_bp4x_good docs tfs
+    ⟨hs, fun d hd => Nat.lt_trans (ht d hd) (by decide), hl, hp⟩
+
+theorem C07_positions_addressing_concrete (perDoc : List (List Nat)) (i : Nat) (hi : i < perDoc.length) :
+    Positions.read cfg (Positions.encode cfg perDoc.flatten)
+      (((perDoc.take i).map List.length).sum) (perDoc.getD i []).length = some (perDoc.getD i []) :=
+  C07_positions_addressing cfg (by decide) (by decide) C07_bp4x_good perDoc i hi
 
 /-! ### TermInfoStore -/
 
